@@ -114,7 +114,11 @@ impl Default for SuspenseTaskGuard {
 impl Drop for SuspenseTaskGuard {
     fn drop(&mut self) {
         if let Some(mut scope) = self.scope {
-            scope.tasks_remaining -= 1;
+            // The suspense scope may have been disposed before the task holding this guard is
+            // dropped by the executor.
+            if scope.tasks_remaining.is_alive() {
+                scope.tasks_remaining -= 1;
+            }
         }
     }
 }
